@@ -212,6 +212,10 @@ class BigEdge:
         :rtype: list
         """
         vobject = self.get_vertex_object_by_id(vid)
+        if method == "edge" and self.is_straight():
+            # collinear vertices (always the case for two) have no circle: the fit degenerates to a centre
+            # on the line itself; the tangent of a straight big edge is its own direction
+            return np.array(self.get_straight_edge_versor_from_vid(vid), dtype=float)
         if method == "edge":
             xc, yc = ve.calculate_circle_center(self.vertices, method=fit_method)
         elif method == "cell" and cell:
@@ -226,6 +230,21 @@ class BigEdge:
             correction = correct_sign * np.sign(vector)
             vector = vector * correction
         return vector
+
+    def is_straight(self) -> bool:
+        """
+        Check whether all the vertices of the big edge lie on the straight line through its two ends
+
+        :return: True if the vertices are collinear. Always True for a big edge with two vertices
+        :rtype: bool
+        """
+        x0, y0 = float(self.vertices[0].x), float(self.vertices[0].y)
+        dx, dy = float(self.vertices[-1].x) - x0, float(self.vertices[-1].y) - y0
+        chord_squared = dx * dx + dy * dy
+        if chord_squared == 0:
+            return False
+        deviations = [abs(dx * (float(v.y) - y0) - dy * (float(v.x) - x0)) for v in self.vertices[1:-1]]
+        return len(deviations) == 0 or max(deviations) <= 1e-12 * chord_squared
 
     def get_vertex_object_by_id(self, vid: int) -> object:
         """
